@@ -768,6 +768,12 @@ func (m *mappedFile) newCounter(name string) (v *atomic.Uint64, m1 *mappedFile, 
 		}
 		start, end = m.place(limit, name)
 		debugPrintf("place %s at %#x-%#x\n", name, start, end)
+		if start < limit || end <= start {
+			// The placement arithmetic wrapped around 2^32: the limit is
+			// corrupt. (Reserving the wrapped range would lower the limit
+			// into the existing records.)
+			return nil, nil, errCorrupt
+		}
 		if int64(end) > int64(len(m.mapping.Data)) {
 			if int64(limit) > int64(len(m.mapping.Data)) {
 				// Another process has extended the file, or the limit is
